@@ -458,6 +458,9 @@ class Facts:
                 for f in self.fn_list:
                     if f.parent == hp and (f.is_closure or f.root) and f not in g.closures and f is not g:
                         g.closures.append(f)
+        self.dropped = {}
+        for j in d.get("dropped_fns", ()):
+            self.dropped.setdefault(j["path"], Fn(self, j))
         self.adts = {a["path"]: a for a in d["adts"]}
         self.impls = d["impls"]
         self.traits = {t["path"]: t for t in d["traits"]}
